@@ -482,3 +482,4 @@ fn c09_reserialization_normal_form() {
     vcover!(true, "C09.reserialization.cover.ran");
 }
 
+
